@@ -72,6 +72,25 @@ CUSTOM["lpeak"] = {"m": 3, "py": lambda q: (lambda x, a, m, w: a / (1 + ((x - m)
                    "ref": lambda x, a, m, w: a / (1 + ((x - m) / w) ** 2)}
 
 
+# user models that are polynomials in x but NOT the pre-set ones: the parameters in the order a user
+# writes them (constant term first), a power left out.  A user function is fitted as what it
+# computes, whatever it is called (CALLABLE NOTES below).
+CUSTOM["affine"] = {"m": 2, "py": lambda q: (lambda x, offset, gain: offset + gain * x),
+                    "nodes": [["var", 0], ["var", 1], ["var", 2], ["bin", "mul", 1, 2],
+                              ["bin", "add", 0, 3]], "root": 4,
+                    "ref": lambda x, offset, gain: offset + gain * x}
+CUSTOM["parabola"] = {"m": 2, "py": lambda q: (lambda x, a, c: a * x ** 2 + c),
+                      "nodes": [["var", 0], ["var", 1], ["var", 2], _c(2.0), ["bin", "pow", 2, 3],
+                                ["bin", "mul", 0, 4], ["bin", "add", 5, 1]], "root": 6,
+                      "ref": lambda x, a, c: a * x ** 2 + c}
+CUSTOM["cubic0"] = {"m": 3, "py": lambda q: (lambda x, c, b, a: c + b * x + a * x ** 3),
+                    "nodes": [["var", 0], ["var", 1], ["var", 2], ["var", 3], ["bin", "mul", 1, 3],
+                              ["bin", "add", 0, 4], _c(3.0), ["bin", "pow", 3, 6], ["bin", "mul", 2, 7],
+                              ["bin", "add", 5, 8]], "root": 9,
+                    "ref": lambda x, c, b, a: c + b * x + a * x ** 3}
+POLY_LIKE = ("custom:affine", "custom:parabola", "custom:cubic0")
+
+
 def custom_spec(case_or_model, case=None):
     """the user model of a case.  `custom:<name>` is an entry of CUSTOM; `custom:o<name>` is the
     same formula in the variable (x - x0) with the constant x0 = case["x0"] written into the
@@ -194,8 +213,11 @@ def as_list(e, n):
 def gen_case(rng, family=None, noise_free=None, form=None, want_range=None, degree=None,
              sx=None, sy=None, units=None, guess=None):
     family = family or rng.choice(["linear", "quadratic", "polynomial", "polynomial", "exponential",
-                                   "gaussian", "custom:sine", "custom:growth", "custom:lorentz"])
+                                   "gaussian", "custom:sine", "custom:growth", "custom:lorentz"] * 3
+                                  + list(POLY_LIKE))
     case = {"model": family, "form": form or rng.choice(FORMS)}
+    if family.startswith("custom:") and rng.random() < 0.6:
+        case["callable"] = gen_callable(rng)
     poly = family in PRESET_POLY
     if poly:
         d = {"linear": 1, "quadratic": 2}.get(family) or degree or rng.randint(1, 5)
@@ -250,6 +272,10 @@ def gen_case(rng, family=None, noise_free=None, form=None, want_range=None, degr
             w = round(rng.uniform(0.5, 2.0), 3)
             ptrue = [round(rng.uniform(1, 10), 3), mu, w]
             xs = distinct_xs(rng, n, mu - 3.0 * w, mu + 3.0 * w)
+        elif family == "custom:cubic0":
+            ptrue = [round(rng.uniform(1, 5), 3), round(rng.uniform(0.3, 2.0), 3),
+                     round(rng.uniform(0.3, 2.0), 3)]
+            xs = distinct_xs(rng, n, -2.0, 3.0)
         else:
             ptrue = [round(rng.uniform(1, 5), 3), round(rng.uniform(0.3, 2.0), 3)]
             xs = distinct_xs(rng, n, -2.0, 3.0)
@@ -356,7 +382,8 @@ def param_scales(case, xs, ys):
     return {"exponential": [ys, 1 / xs], "gaussian": [ys * xs, xs, xs],
             "custom:sine": [ys, 1 / xs], "custom:growth": [ys, 1 / xs],
             "custom:decay": [ys, 1 / xs], "custom:lpeak": [ys, xs, xs],
-            "custom:lorentz": [ys, 1 / xs ** 2]}[m]
+            "custom:lorentz": [ys, 1 / xs ** 2], "custom:affine": [ys, ys / xs],
+            "custom:parabola": [ys / xs ** 2, ys], "custom:cubic0": [ys, ys / xs, ys / xs ** 3]}[m]
 
 
 def rescale(case, xs, ys):
@@ -441,10 +468,114 @@ def gen_offset(rng, family=None, ratio=None, units=None, **kw):
     return case
 
 
+# ---------------------------------------------------------------------------------------------
+# CALLABLE NOTES.  "A user-defined model" is any callable `f(x, p1, ..., pm)`; which KIND of callable
+# it is and what it is CALLED are accidents of the user's program and must not change the fit.  The
+# generator hands the same formula over as
+#   lambda            a lambda (name "<lambda>")                     -- what the harness always did
+#   def               `def <name>(x, a, b): ...` (made with exec, so that __name__, __qualname__ and
+#                     the code object all carry the name)
+#   renamed           a lambda whose __name__ was assigned
+#   partial           functools.partial(g, k) binding a leading positional constant (no __name__)
+#   object            an instance of a class with __call__ (no __name__)
+#   object-named      the same with an instance attribute __name__
+#   method            a bound method called <name>
+#   decorated         a `*args` wrapper made with functools.wraps (name and signature of the wrapped)
+#   varargs           `def <name>(x, *p)`; the number of parameters comes from parguess
+# under names drawn from: every pre-set model name (the library dispatches on model NAMES, a user's
+# `def linear(x, offset, gain)` is still the user's function), the library's own word "custom", and
+# ordinary names.  Excluded, with the reason: functools.partial binding a KEYWORD (the signature
+# then has a keyword-only parameter, which the library rejects by design: "should not have keyword
+# arguments"); numpy.vectorize objects (signature (*args, **kwargs), rejected the same way).
+CALLABLE_KINDS = ("lambda", "def", "def", "renamed", "partial", "object", "object-named", "method",
+                  "decorated", "varargs")
+PRESET_NAMES = ("linear", "quadratic", "polynomial", "gaussian", "exponential")
+CALLABLE_NAMES = PRESET_NAMES + PRESET_NAMES + ("custom", "model", "func", "f", "fit", "line", "Linear",
+                                                "LINEAR", "poly")
+NAMED_KINDS = ("def", "renamed", "object-named", "method", "decorated", "varargs")
+
+
+def gen_callable(rng, kind=None, name=None):
+    kind = kind or rng.choice(CALLABLE_KINDS)
+    if kind not in NAMED_KINDS:
+        return {"kind": kind}
+    return {"kind": kind, "name": name or rng.choice(CALLABLE_NAMES)}
+
+
+def add_callable(rng, case, kind=None, name=None):
+    """a user-model case handed over as another kind of callable / under another name"""
+    if case["model"].startswith("custom:"):
+        case["callable"] = gen_callable(rng, kind, name)
+    return case
+
+
+def wrap_callable(f, m, spec):
+    """the formula f(x, p1..pm) as the kind of callable the case says"""
+    import functools
+    kind = (spec or {}).get("kind", "lambda")
+    name = (spec or {}).get("name")
+    if kind == "lambda":
+        return f
+    args = ", ".join("p%d" % k for k in range(m))
+    if kind in ("def", "varargs", "method"):
+        ns = {"_f": f}
+        if kind == "def":
+            src = "def {0}(x, {1}):\n    return _f(x, {1})\n".format(name, args)
+        elif kind == "varargs":
+            src = "def {0}(x, *p):\n    return _f(x, *p)\n".format(name)
+        else:
+            src = ("class Analysis:\n    def {0}(self, x, {1}):\n        return _f(x, {1})\n"
+                   "_obj = Analysis()\n").format(name, args)
+        exec(src, ns)                      # noqa: S102  (source text of the harness itself)
+        return getattr(ns["_obj"], name) if kind == "method" else ns[name]
+    if kind == "renamed":
+        ns = {"_f": f}
+        exec("g = lambda x, {0}: _f(x, {0})\n".format(args), ns)      # noqa: S102
+        g = ns["g"]
+        g.__name__ = name
+        g.__qualname__ = name
+        return g
+    if kind == "partial":
+        ns = {"_f": f}
+        exec("def general(k, x, {0}):\n    return _f(x, {0})\n".format(args), ns)   # noqa: S102
+        return functools.partial(ns["general"], 1)
+    if kind in ("object", "object-named"):
+        ns = {"_f": f}
+        exec("class Model:\n    def __call__(self, x, {0}):\n        return _f(x, {0})\n".format(args), ns)  # noqa: S102
+        obj = ns["Model"]()
+        if kind == "object-named":
+            obj.__name__ = name
+        return obj
+    if kind == "decorated":
+        ns = {"_f": f}
+        exec("def {0}(x, {1}):\n    return _f(x, {1})\n".format(name, args), ns)      # noqa: S102
+        inner = ns[name]
+
+        @functools.wraps(inner)
+        def wrapper(*a):
+            return inner(*a)
+        return wrapper
+    raise KeyError(kind)
+
+
+def callable_tag(case):
+    """evidence label: kind of callable, and whether its name is one of the pre-set model names"""
+    sp = case.get("callable")
+    if not sp:
+        return "lambda"
+    t = sp["kind"]
+    if "name" in sp:
+        nm = sp["name"]
+        t += ":named-" + (nm if nm in PRESET_NAMES or nm == "custom" else
+                          "like-a-preset-in-other-case" if nm.lower() in PRESET_NAMES else "other")
+    return t
+
+
 def model_arg(q, case):
     m = case["model"]
     if m.startswith("custom:"):
-        return custom_spec(case)["py"](q)
+        sp = custom_spec(case)
+        return wrap_callable(sp["py"](q), sp["m"], case.get("callable"))
     if case["form"] == "enum":
         return q.FitModel(m)
     return m
